@@ -407,6 +407,32 @@ pub fn presentation_validation(cex: &Value) -> Result<String, String> {
       }
       expect(name, run(&sign_jwt(&v.to_string(), Some(&kid), None, &method_key(HOLDER, "#auth")), &holder, &base()), want);
     }
+    // members taken from the serialisation options are present exactly when the option is (no default is filled in)
+    for mask in 0..16u8 {
+      let mut o = JwtPresentationOptions::default();
+      o.expiration_date = if mask & 1 != 0 { Some(ts(t0 + 1000)) } else { None };
+      o.issuance_date = if mask & 2 != 0 { Some(ts(t0)) } else { None };
+      o.audience = if mask & 4 != 0 { Some(Url::parse("https://verifier.example").unwrap()) } else { None };
+      o.custom_claims = if mask & 8 != 0 { Some(serde_json::from_value(serde_json::json!({"x-claim": 7})).unwrap()) } else { None };
+      let text = pres.serialize_jwt(&o).unwrap();
+      let v: serde_json::Value = serde_json::from_str(&text).unwrap();
+      let got = (v.get("exp").is_some(), v.get("nbf").is_some() || v.get("iat").is_some(), v.get("aud").is_some(), v.get("x-claim").is_some());
+      let want = (mask & 1 != 0, mask & 2 != 0, mask & 4 != 0, mask & 8 != 0);
+      if got != want {
+        log.borrow_mut().push(format!("[options] options (exp, issuance, aud, custom) present = {want:?}: claims carry {got:?}"));
+      }
+      // and what validation hands back is what was signed (bounds wide open)
+      let jwt = sign_jwt(&text, Some(&kid), None, &method_key(HOLDER, "#auth"));
+      let wide = JwtPresentationValidationOptions::default().latest_issuance_date(ts(t0 + 5000)).earliest_expiry_date(ts(t0 - 5000));
+      match run(&jwt, &holder, &wide) {
+        Ok(d) => {
+          if d.expiration_date.is_some() != want.0 || d.issuance_date.is_some() != want.1 || d.aud.is_some() != want.2 {
+            log.borrow_mut().push(format!("[options] options present = {want:?}: validation hands back exp {:?} issuance {:?} aud {:?}", d.expiration_date, d.issuance_date, d.aud.as_ref().map(|u| u.to_string())));
+          }
+        }
+        Err(e) => log.borrow_mut().push(format!("[options] options present = {want:?}: own token rejected: {e}")),
+      }
+    }
     // exp outside the representable range is an error whatever the bounds are - never "no expiry"
     for exp in [-62167219201i64, i64::MIN, i64::MIN + 1, 253402300800, i64::MAX] {
       let mut v: serde_json::Value = serde_json::from_str(&claims).unwrap();
@@ -581,6 +607,10 @@ pub fn claims(cex: &Value) -> Result<String, String> {
     let cases: Vec<(&str, Box<dyn Fn(&mut serde_json::Value)>, bool)> = vec![
       ("vc.issuer equal", Box::new(|v| v["vc"]["issuer"] = v["iss"].clone()), true),
       ("vc.issuer different", Box::new(|v| v["vc"]["issuer"] = serde_json::json!(OTHER)), false),
+      ("vc.issuer object with the same id and another name", Box::new(|v| v["vc"]["issuer"] = serde_json::json!({"id": ISSUER, "name": "Other University"})), false),
+      ("vc.issuer object with the same id and an extra member", Box::new(|v| v["vc"]["issuer"] = serde_json::json!({"id": ISSUER, "name": "Example University", "x": 1})), false),
+      ("vc.issuer object with the same id and no other member", Box::new(|v| v["vc"]["issuer"] = serde_json::json!({"id": ISSUER})), false),
+      ("vc.issuer as the plain URL of an iss in object form", Box::new(|v| v["vc"]["issuer"] = serde_json::json!(ISSUER)), false),
       ("vc.id equal", Box::new(|v| v["vc"]["id"] = v["jti"].clone()), true),
       ("vc.id different", Box::new(|v| v["vc"]["id"] = serde_json::json!("http://example.edu/credentials/1")), false),
       ("vc.id present, jti absent", Box::new(|v| { v["vc"]["id"] = v["jti"].clone(); v.as_object_mut().unwrap().remove("jti"); }), false),
